@@ -6,9 +6,11 @@ Spaces (DESIGN.md section 4, C07):
   B  closure  : H-closure. BFS over the Clifford group modulo phase (key computed by the *reference*: dense
                 unitary mod phase); every state is rebuilt on the real object, queried cold, then every append
                 event is applied to the warm object and queried again.
+  A' hist/ext : the same over the extended alphabet (+ random_one/two_qubit_gate with every generator answer, + num_qubit).
   C  autom    : apply_clifford_on_pauli for all S in Sp(2n,F2) x all r x all phased Paulis: phase-exact automorphism.
-     mult     : clifford_multiply == sequential application.
-     arr2f2   : clifford_array_to_F2(U) reproduces U P U^dagger for every group element.
+     mult     : clifford_multiply == sequential application (+ 96 dense operands at n=2).
+     arr2f2   : clifford_array_to_F2(U) reproduces U P U^dagger for every group element, in every input form.
+     n3       : the three above on all products of <= 2 elementary gates on 3 qubits.
 Oracle: dense conjugation with kron-built Paulis (mc.ref).
 """
 import copy
@@ -20,14 +22,23 @@ from mc import ref
 
 PROPERTY = 'C07'
 GUARD = ['numqi.sim.clifford']  # argument-immutability oracle (mc.seams.ImmutabilityGuard)
+GUARD_LAYOUT = ['numqi.sim.clifford.clifford_array_to_F2']  # memory-layout oracle for the unitary -> (r,S) conversion
 LEVEL = 'model_checking'
 RULE = ('state = event history on a real CliffordCircuit (append g on q / query / apply / export); stateless enumeration of all '
         'histories to the depth bound plus BFS closure of the Clifford group mod phase keyed by the reference unitary; '
         'transition = one implementation call compared with dense conjugation U^dagger P U for all phased Paulis, after which the returned arrays are overwritten in place (the caller owns them); '
-        'non-trivial = distinct reference group elements / action tables that are not the identity')
+        'non-trivial = distinct reference group elements / action tables that are not the identity. '
+        'Extended alphabet (one level shallower): random_one_qubit_gate / random_two_qubit_gate with every answer of the generator passed as seed '
+        '(mc.seams.StubGenerator; the recorded gate must be one elementary gate on the requested qubits, or nothing for the identity, and is then replayed by the reference) '
+        'and num_qubit as a query; exported circuits are mutated after the comparison. '
+        'Pure functions: all of Sp(2,F2), Sp(4,F2); clifford_multiply additionally with 96 dense two-qubit operands (24 local Cliffords x {1,CX,CX.CX^T,SWAP}) against every S; '
+        'three qubits: the 600 products of <= 2 elementary gates for clifford_array_to_F2 / automorphism laws / clifford_multiply with the one-gate elements; '
+        'clifford_array_to_F2 also on e^{i phi}U (phi generic, seed-dependent), real float64, Fortran-ordered and strided forms (same (r,S) required)')
 ASSUMPTIONS = [
     'dense numpy conjugation with kron-built Pauli matrices is the reference semantics',
     'a query on a circuit without any gate is outside the domain (the qubit count is undefined)',
+    'the random appends consume the generator given as seed (one integers() draw per call in the pinned tree); the gate they record is read from gate_index_list after it was checked to be admissible',
+    'products compared on the generators X_k, Z_k, i*1 only (dense and 3-qubit multiply) rely on the automorphism law, which is checked for all of Sp(4,F2) x all r and for every 3-qubit factor used',
     'closure merging: futures depend on the history only through (group element, qubit count, cache flag) if the implementation is correct; the stateless pass covers history dependence up to its depth',
 ]
 CHUNK = 1
@@ -46,6 +57,25 @@ def all_events(nq):
     # histories additionally use the identity gate (appends nothing) and the CNOT alias of CX
     extra = [('I', 0)] + ([('CNOT', 0, 1)] if nq >= 2 else [])
     return append_events(nq) + extra + [('sym',), ('apply',), ('univ',)]
+
+
+# random_one_qubit_gate / random_two_qubit_gate draw ONE integer from the generator given as `seed` (pinned tree:
+# np_rng.integers(0, 6) over [I,X,Y,Z,H,S], np_rng.integers(0, 3) over [CX,CY,CZ]); the harness answers every value
+# through mc.seams.StubGenerator, so the "random" appends are enumerated like any other event.
+N_R1 = 6
+N_R2 = 3
+RAND_FN = {'r1': 'random_one_qubit_gate', 'r2': 'random_two_qubit_gate'}
+
+
+def rand_events(nq):
+    ev = [('r1', q, a) for q in range(nq) for a in range(N_R1)]
+    ev += [('r2', a, b, k) for a in range(nq) for b in range(nq) if a != b for k in range(N_R2)]
+    return ev
+
+
+def ext_events(nq):
+    # extended alphabet: + the random appends (every generator answer) + reading num_qubit as a query event
+    return all_events(nq) + rand_events(nq) + [('nq',)]
 
 
 _TABLE_CACHE = {}
@@ -134,12 +164,28 @@ def check_query(numqi, out, circ, gates, kind, hist, site, which=None):
         M = uc.to_unitary()
         if M.shape != U.shape or np.abs(M - U).max() > 1e-10:
             out.violation('%s/to_universal_circuit/wrong_unitary' % site, 'exported circuit differs from the product of the appended gates', history=hist)
+        # the caller owns the exported circuit too: overwrite the matrix and append a gate to the export, so that every
+        # later export of the history shows whether the object handed out a circuit it keeps (the gate arrays themselves
+        # are the numqi.gate constants and are not touched)
+        if isinstance(M, np.ndarray) and M.flags.writeable:
+            M[...] = 1
+        uc.single_qubit_gate(numqi.gate.H, 0)
+    elif kind == 'nq':
+        v = circ.num_qubit
+        if isinstance(v, bool) or not isinstance(v, (int, np.integer)) or int(v) != n:
+            out.violation('%s/num_qubit/wrong' % site, 'num_qubit=%r after history %s, the gates appended so far touch %d qubits' % (v, hist, n), history=hist)
     out.trace()
 
 
 def run_history(numqi, out, hist, site='hist'):
     """execute one history on a fresh object, checking after every query event"""
-    circ = numqi.sim.CliffordCircuit()
+    answers = [ev[-1] for ev in hist if ev[0] in RAND_FN]
+    if answers:
+        from mc.seams import StubGenerator
+        stub = StubGenerator(answers)
+        circ = numqi.sim.CliffordCircuit(seed=stub)
+    else:
+        circ = numqi.sim.CliffordCircuit()
     gates = []
     n_query = 0
     for ev in hist:
@@ -149,6 +195,29 @@ def run_history(numqi, out, hist, site='hist'):
                 continue
             check_query(numqi, out, circ, gates, ev[0], hist, site)
             n_query += 1
+        elif ev[0] in RAND_FN:
+            fn = RAND_FN[ev[0]]
+            qs = tuple(ev[1:-1])
+            n_before = len(circ.gate_index_list)
+            n_ans = len(stub.answers)
+            getattr(circ, fn)(*qs)
+            out.trans()
+            out.count('rand_draws_from_seed_%d' % (n_ans - len(stub.answers)))
+            if stub.log and tuple(stub.log[-1][:3]) != ('integers', 0, N_R1 if ev[0] == 'r1' else N_R2):
+                out.count('rand_range_unexpected')
+            new = [tuple(g) for g in circ.gate_index_list[n_before:]]
+            # admissible: exactly one elementary Clifford gate of the right arity on the requested qubits (which of the two
+            # is the control is not specified), or - one-qubit only - nothing (the identity). The reference then replays
+            # the gate the object recorded.
+            names = ONE if ev[0] == 'r1' else TWO
+            ok = (len(new) == 1 and len(new[0]) == len(qs) + 1 and new[0][0] in names and sorted(int(x) for x in new[0][1:]) == sorted(qs)) or (len(new) == 0 and ev[0] == 'r1')
+            if len(circ.gate_index_list) < n_before or [tuple(g) for g in circ.gate_index_list[:n_before]] != [tuple(g) for g in gates]:
+                ok = False
+            if not ok:
+                out.violation('%s/%s/inadmissible_gate' % (site, fn), '%s%s recorded %s: not one of %s on the requested qubits' % (fn, qs, new, names), history=hist)
+                break
+            out.count('rand_gate/%s' % (new[0][0] if new else 'I'))
+            gates += new
         else:
             getattr(circ, ev[0])(*ev[1:])
             if ev[0] == 'CNOT':
@@ -201,6 +270,49 @@ def closure_states(n, max_depth=None):
     return states
 
 
+def check_forms(numqi, out, env, U, r, S_, h):
+    """clifford_array_to_F2 on other admissible forms of the same Clifford: a generic global phase (U -> e^{i phi} U has the
+    same conjugation action), the real float64 array if U is real, Fortran order, strided views. Oracle: the same (r,S)."""
+    phi = float(env.rng('C07', 'global_phase').uniform(0.1, 6.2))
+    d = U.shape[0]
+    forms = [('phase', U * np.exp(1j * phi)), ('fortran', np.asfortranarray(U))]
+    big = np.zeros((2 * d, 3 * d), dtype=U.dtype)
+    big[::2, 1::3] = U
+    forms.append(('strided', big[::2, 1::3]))
+    forms.append(('negative_strides', np.ascontiguousarray(U[::-1, ::-1])[::-1, ::-1]))
+    if np.abs(U.imag).max() == 0:
+        forms.append(('real', np.ascontiguousarray(U.real)))
+        out.count('arr2f2_real_inputs')
+    for name, V in forms:
+        out.trans()
+        try:
+            r2, S2 = numqi.sim.clifford.clifford_array_to_F2(V)
+        except Exception as e:
+            out.violation('arr2f2/clifford_array_to_F2/form_%s/%s' % (name, type(e).__name__), 'conversion raised %r for the %s form of a Clifford unitary' % (e, name), history=list(h), phi=phi)
+            continue
+        if not (np.array_equal(r2, r) and np.array_equal(S2, S_)):
+            out.violation('arr2f2/clifford_array_to_F2/form_%s' % name, '(r,S) depends on the %s form of the same Clifford' % name, history=list(h), phi=phi)
+
+
+_DENSE = []
+
+
+def dense_operands(numqi):
+    """96 two-qubit Cliffords with dense tableaux: (c_i on qubit 0) x (c_j(i) on qubit 1) for the 24 one-qubit Cliffords c_i,
+    followed by one of {1, CX01, CX01.CX10, SWAP}; (r,S) from clifford_array_to_F2 (compared with the reference in kind arr2f2)"""
+    if not _DENSE:
+        loc = [ref.clifford_history_unitary(list(h), 1) for h in closure_states(1)]
+        assert len(loc) == 24
+        cx01 = ref.embed(ref.CLIFFORD_GATES['CX'], [0, 1], 2)
+        cx10 = ref.embed(ref.CLIFFORD_GATES['CX'], [1, 0], 2)
+        ent = [np.eye(4), cx01, cx01 @ cx10, cx01 @ cx10 @ cx01]
+        for i, c in enumerate(loc):
+            for E in ent:
+                U = E @ np.kron(c, loc[(5 * i + 7) % 24])
+                _DENSE.append(numqi.sim.clifford.clifford_array_to_F2(U))
+    return _DENSE
+
+
 def prepare(env):
     ref.pauli_table(1)
     ref.pauli_table(2)
@@ -208,8 +320,8 @@ def prepare(env):
     ref.pauli_mul_table(2)
     ref.all_symplectic(1)
     ref.all_symplectic(2)
-    if env.tier == 'thorough':
-        ref.pauli_table(3)
+    ref.pauli_table(3)
+    ref.pauli_mul_table(3)
 
 
 def build_cases(tier, seed):
@@ -226,6 +338,21 @@ def build_cases(tier, seed):
         pl = min(2, depth)
         for prefix in itertools.product(range(len(evs)), repeat=pl):
             cases.append({'kind': 'hist', 'nq': nq, 'depth': depth, 'prefix': list(prefix)})
+    # ---- A': the same histories over the extended alphabet (random appends with every generator answer, num_qubit as a
+    # query), one level shallower; only histories that contain at least one of the new events are executed
+    ext_cfg = [(1, 4), (2, 3)] if tier == 'quick' else [(1, 4), (2, 4), (3, 3)]
+    info['history_bounds_extended_alphabet'] = [{'n_max': a, 'depth': b, 'events': len(ext_events(a))} for a, b in ext_cfg]
+    for nq, depth in ext_cfg:
+        evs = ext_events(nq)
+        pl = 1 if depth <= 3 else 2
+        for prefix in itertools.product(range(len(evs)), repeat=pl):
+            cases.append({'kind': 'hist', 'nq': nq, 'depth': depth, 'prefix': list(prefix), 'alpha': 'ext'})
+    # quick only (the thorough tier contains these in the depth-4 extended histories): the shortest histories in which a
+    # stale cache can show after a new event, [append a, query q, append-or-random b, query q'] with b random or q/q' = num_qubit
+    if tier == 'quick':
+        for nq in (1, 2):
+            for ai in range(len(append_events(nq))):
+                cases.append({'kind': 'histw', 'nq': nq, 'a': ai})
     # ---- B: closure
     clos = [(1, None), (2, None)] if tier == 'thorough' else [(1, None), (2, None)]
     info['closure'] = []
@@ -245,12 +372,22 @@ def build_cases(tier, seed):
     nS = len(ref.all_symplectic(2))
     for a in range(0, nS, 24):
         cases.append({'kind': 'mult', 'n': 2, 'lo': a, 'hi': min(a + 24, nS)})
+    # dense second operand: 24 local Cliffords x {1, CX, CX.CX^T, SWAP} (96 elements with dense S and r) against every
+    # S of Sp(4,F2) as the other operand (phase vectors / subset of the 96 cycling with S, see run_case)
+    for a in range(0, nS, 24):
+        cases.append({'kind': 'mult', 'n': 2, 'lo': a, 'hi': min(a + 24, nS), 'dense': True, 'all_r': tier == 'thorough'})
+    info['mult_dense_operands'] = 96
     for n, md in clos:
         states = closure_states(n, md)
         for a in range(0, len(states), 96):
             cases.append({'kind': 'arr2f2', 'n': n, 'max_depth': md, 'lo': a, 'hi': min(a + 96, len(states))})
+    # ---- three qubits: arr2f2 / autom / mult on every product of <= 2 elementary gates
+    st3 = closure_states(3, 2)
+    info['n3_elements'] = len(st3)
+    for a in range(0, len(st3), 25):
+        cases.append({'kind': 'n3', 'lo': a, 'hi': min(a + 25, len(st3)), 'both': tier == 'thorough'})
     info['exhaustive'] = True
-    info['note'] = 'exhaustive within the stated bounds: all histories to the depth bound; full closure of the 1- and 2-qubit groups; all of Sp(2,F2), Sp(4,F2) x all phase vectors'
+    info['note'] = 'exhaustive within the stated bounds: all histories to the depth bound; full closure of the 1- and 2-qubit groups; all of Sp(2,F2), Sp(4,F2) x all phase vectors; the random appends for every generator answer; 96 dense multiply operands x every S (phase vectors cycling); the 600 three-qubit products of <= 2 gates'
     return cases, info
 
 
@@ -258,7 +395,9 @@ def run_case(case, out, env):
     import numqi
     kind = case['kind']
     if kind == 'hist':
-        evs = all_events(case['nq'])
+        ext = case.get('alpha') == 'ext'
+        evs = ext_events(case['nq']) if ext else all_events(case['nq'])
+        base = set(all_events(case['nq']))
         prefix = [evs[i] for i in case['prefix']]
         rest = case['depth'] - len(prefix)
         # all histories of length len(prefix)..depth that start with this prefix
@@ -269,9 +408,21 @@ def run_case(case, out, env):
             hist = [tuple(e) for e in prefix] + [tuple(e) for e in tail]
             if len(hist[-1]) != 1:
                 continue
+            if ext and all(e in base for e in hist):
+                continue  # executed by the base-alphabet cases
             nq_tot += run_history(numqi, out, hist)
         if out.sample is None:
             out.sample = {'kind': 'hist', 'example_history': [list(e) for e in prefix] + [['sym']]}
+    elif kind == 'histw':
+        aev = append_events(case['nq'])
+        qs = [('sym',), ('apply',), ('univ',), ('nq',)]
+        rnd = set(rand_events(case['nq']))
+        for q1 in qs:
+            for b in aev + rand_events(case['nq']):
+                for q2 in qs:
+                    if b in rnd or ('nq',) in (q1, q2):
+                        run_history(numqi, out, [tuple(aev[case['a']]), q1, tuple(b), q2])
+        out.sample = {'kind': 'histw', 'example_history': [list(aev[case['a']]), ['sym'], ['r1', 0, 4], ['sym']]}
     elif kind == 'closure':
         n = case['n']
         states = closure_states(n, case['max_depth'])
@@ -354,6 +505,20 @@ def run_case(case, out, env):
         if n == 1:
             elems = [(r, S_) for S_ in Sall for r in rs]
             pairs = [(x, y) for x in elems for y in elems]
+        elif case.get('dense'):
+            ys = dense_operands(numqi)
+            # budget (a guarded call costs ~0.3 ms): quick = every S with one phase vector and 24 of the 96 dense elements
+            # (both cycling with the index of S, so every r and every dense element meets 45 / 180 different S);
+            # thorough = every S with four phase vectors (cycling) and all 96. rx enters the product only additively.
+            pairs = []
+            for si in range(case['lo'], case['hi']):
+                ysel = ys if case['all_r'] else ys[(si % 4)::4]
+                for k in range(4 if case['all_r'] else 1):
+                    x = (rs[(si + 4 * k) % len(rs)], Sall[si])
+                    # the dense element is the second operand for every x and the first operand for every fourth S
+                    pairs += [(x, y) for y in ysel]
+                    if si % 4 == k:
+                        pairs += [(y, x) for y in ysel]
         else:
             # every group element x times every generator element y (the elementary gates' tableaux), all r for x in {0, e1, 1..1}
             gens = []
@@ -363,6 +528,8 @@ def run_case(case, out, env):
             rsel = [rs[0], rs[1], rs[-1], rs[6]]
             pairs = [((r, Sall[si]), y) for si in range(case['lo'], case['hi']) for r in rsel for y in gens]
             pairs += [(y, (r, Sall[si])) for si in range(case['lo'], case['hi']) for r in rsel[:2] for y in gens[:6]]
+        gens_only = bool(case.get('dense'))
+        Lf = ref.symplectic_form(n).astype(int)
         acache = {}
 
         def caction(r, S_):
@@ -380,6 +547,21 @@ def run_case(case, out, env):
                 continue
             ax = caction(rx, Sx)
             ay = caction(ry, Sy)
+            if gens_only:
+                # (rz,Sz) with Sz symplectic acts as an automorphism (kind autom: all of Sp(4,F2) x all r) and so does
+                # y o x: they are equal iff they agree on the generators X_k, Z_k, i*1 of the phased Pauli group
+                Si = np.asarray(Sz).astype(int)
+                okz = (isinstance(rz, np.ndarray) and rz.shape == (2 * n,) and rz.dtype == np.uint8 and rz.max() <= 1 and Si.shape == (2 * n, 2 * n)
+                       and np.asarray(Sz).dtype == np.uint8 and np.array_equal((Si @ Lf @ Si.T) % 2, Lf))
+                if not okz:
+                    out.violation('mult_dense/clifford_multiply/not_a_tableau', 'product is not a binary (r,S) with S symplectic', rx=rx, Sx=Sx, ry=ry, Sy=Sy)
+                    continue
+                azg = np.array([ref.f2_index(apply(f2[i].copy(), rz, Sz)) for i in gen], dtype=np.int64)
+                if not np.array_equal(azg, ay[ax[gen]]):
+                    out.violation('mult_dense/clifford_multiply/not_sequential', 'clifford_multiply(x,y) does not act as y(x(P)) on the generators', rx=rx, Sx=Sx, ry=ry, Sy=Sy)
+                out.outcome(azg.tobytes(), nontrivial=not np.array_equal(azg, np.array(gen)))
+                out.trace()
+                continue
             az = action(rz, Sz)
             # documented: z = y o x  (x applied first)
             if not np.array_equal(az, ay[ax]):
@@ -406,8 +588,98 @@ def run_case(case, out, env):
             got = np.array([ref.f2_index(apply(f2[i].copy(), r, S_)) for i in range(N)])
             if not np.array_equal(got, table):
                 out.violation('arr2f2/clifford_array_to_F2/wrong_action', '(r,S) from the unitary does not reproduce U P U^dagger', history=list(h))
+            check_forms(numqi, out, env, U, r, S_, h)
             out.outcome(table.tobytes(), nontrivial=not np.array_equal(table, np.arange(N)))
             out.trace()
         out.sample = {'kind': 'arr2f2', 'n': n, 'history': [list(e) for e in states[case['lo']]]}
+    elif kind == 'n3':
+        # three qubits: every product of <= 2 elementary gates on 3 qubits (mod phase, 600 elements; the reshape
+        # (2^n, 2^i, 2, 2^(n-i-1)) of clifford_array_to_F2 is non-trivial on both sides only for the middle qubit).
+        # Per element x: clifford_array_to_F2 against the reference action, the automorphism laws for (r,S) and one more
+        # phase vector, clifford_multiply with the one-gate elements y in both orders.
+        n = 3
+        apply = numqi.sim.clifford.apply_clifford_on_pauli
+        mult = numqi.sim.clifford.clifford_multiply
+        states = closure_states(3, 2)
+        f2 = ref.pauli_table(n)[0]
+        MUL = ref.pauli_mul_table(n)
+        N = len(f2)
+        gen = generator_indices(n)
+        Lf = ref.symplectic_form(n).astype(int)
+        yidx = [i for i, h in enumerate(states) if len(h) == 1]
+        ytab = {}
+        yact = {}
+
+        def is_tableau(r, S_):
+            if not (isinstance(r, np.ndarray) and isinstance(S_, np.ndarray) and r.shape == (2 * n,) and S_.shape == (2 * n, 2 * n)):
+                return False
+            Si = S_.astype(int)
+            return r.dtype == np.uint8 and S_.dtype == np.uint8 and r.max() <= 1 and S_.max() <= 1 and np.array_equal((Si @ Lf @ Si.T) % 2, Lf)
+
+        def y_of(yi):
+            if yi not in ytab:
+                ytab[yi] = numqi.sim.clifford.clifford_array_to_F2(ref.clifford_history_unitary(list(states[yi]), n))
+            return ytab[yi]
+
+        def y_img(yi, i):
+            if (yi, i) not in yact:
+                yact[(yi, i)] = int(ref.f2_index(apply(f2[i].copy(), *y_of(yi))))
+            return yact[(yi, i)]
+        for hi in range(case['lo'], case['hi']):
+            h = states[hi]
+            U = ref.clifford_history_unitary(list(h), n)
+            out.state()
+            out.trans()
+            try:
+                r, S_ = numqi.sim.clifford.clifford_array_to_F2(U.copy())
+            except Exception as e:
+                out.violation('arr2f2/clifford_array_to_F2/%s' % type(e).__name__, 'conversion of a Clifford unitary raised %r' % (e,), history=list(h), n=n)
+                continue
+            if not is_tableau(r, S_):
+                out.violation('arr2f2/clifford_array_to_F2/not_a_tableau', 'result is not a binary (r,S) with S symplectic', history=list(h), n=n)
+                continue
+            table = ref.conj_action_table(U, n, dagger_first=False)
+            img = np.array([ref.f2_index(apply(f2[i].copy(), r, S_)) for i in range(N)], dtype=np.int64)
+            out.trans(N)
+            if not np.array_equal(img, table):
+                out.violation('arr2f2/clifford_array_to_F2/wrong_action', '(r,S) from the unitary does not reproduce U P U^dagger', history=list(h), n=n)
+            check_forms(numqi, out, env, U, r, S_, h)
+            out.outcome(table.tobytes(), nontrivial=not np.array_equal(table, np.arange(N)))
+            # automorphism laws at n=3 for (r,S) and (r xor m, S), m a non-zero mask that cycles with the element
+            m = ((hi * 37 + 21) % 63) + 1
+            mask = np.array([(m >> k) & 1 for k in range(2 * n)], dtype=np.uint8)
+            for rv in ((r, r ^ mask) if (case['both'] or hi % 4 == 0) else (r,)):  # quick: second phase vector for every 4th element
+                iv = img if rv is r else np.array([ref.f2_index(apply(f2[i].copy(), rv, S_)) for i in range(N)], dtype=np.int64)
+                if len(set(iv.tolist())) != N:
+                    out.violation('autom/apply_clifford_on_pauli/not_bijective', 'action is not a bijection of the Pauli group', S=S_, r=rv)
+                if not np.array_equal(iv[MUL[:, gen]], MUL[iv[:, None], iv[gen][None, :]]):
+                    a, b = np.argwhere(iv[MUL[:, gen]] != MUL[iv[:, None], iv[gen][None, :]])[0]
+                    out.violation('autom/apply_clifford_on_pauli/not_homomorphism', 'f(PQ) != f(P)f(Q) including the phase', S=S_, r=rv, P=f2[a], Q=f2[gen[b]])
+                if not np.array_equal((f2[:, 2:].astype(int) @ S_.astype(int).T) % 2, f2[iv][:, 2:]):
+                    out.violation('autom/apply_clifford_on_pauli/xz_part', 'X/Z part of the image is not S.(x,z)', S=S_, r=rv)
+                out.outcome(iv.tobytes(), nontrivial=not np.array_equal(iv, np.arange(N)))
+                out.trace()
+            # composition with the one-gate elements: z = y o x (both tiers), z = x o y (thorough). z and both factors act
+            # as automorphisms (checked above for x and y, S_z symplectic), so agreement on the generators decides equality
+            ysel = yidx if case['both'] else yidx[(hi % 3)::3]
+            for yi in ysel:
+                ry, Sy = y_of(yi)
+                for order in ((0, 1) if case['both'] else (0,)):
+                    out.trans()
+                    try:
+                        rz, Sz = mult(r.copy(), S_.copy(), ry.copy(), Sy.copy()) if order == 0 else mult(ry.copy(), Sy.copy(), r.copy(), S_.copy())
+                    except AssertionError as e:
+                        out.violation('mult/clifford_multiply/assert', 'clifford_multiply raised on valid tableaux: %r' % (e,), x=list(h), y=list(states[yi]), order=order)
+                        continue
+                    if not is_tableau(rz, Sz):
+                        out.violation('mult_n3/clifford_multiply/not_a_tableau', 'product is not a binary (r,S) with S symplectic', x=list(h), y=list(states[yi]), order=order)
+                        continue
+                    azg = [int(ref.f2_index(apply(f2[g].copy(), rz, Sz))) for g in gen]
+                    exp = [y_img(yi, int(img[g])) for g in gen] if order == 0 else [int(img[y_img(yi, g)]) for g in gen]
+                    if azg != exp:
+                        out.violation('mult_n3/clifford_multiply/not_sequential', 'clifford_multiply(x,y) does not act as y(x(P)) on the generators', x=list(h), y=list(states[yi]), order=order)
+                    out.outcome(tuple(azg), nontrivial=azg != gen)
+                    out.trace()
+        out.sample = {'kind': 'n3', 'history': [list(e) for e in states[case['lo']]]}
     else:
         raise ValueError(kind)
